@@ -319,6 +319,146 @@ def extract(repo: Path) -> dict:
     return {'enum': enum_vals, 'classes': class_values, 'helpers': helpers, 'table': table}
 
 
+def extract_by_behaviour(repo: Path) -> dict:
+    """The same table read off the RUNNING code: for every direction x state class x public method the method is called on a
+    real `Transfer` whose collaborators are spies, and the ordered effects and the target of `transition()` are recorded.
+    The domain is finite (2 x 10 x 8), so this is a complete reading, independent of how the code is written (helpers,
+    shared implementations). Used to cross-check the AST reading and as the reading itself when the source has a shape
+    the AST walk does not know."""
+    import asyncio
+    import importlib
+    import inspect
+    st_mod = importlib.import_module('aioslsk.transfer.state')
+    md_mod = importlib.import_module('aioslsk.transfer.model')
+    if Path(inspect.getsourcefile(st_mod)).resolve() != (repo / SRC).resolve():
+        raise TranslateError(f'aioslsk.transfer.state is imported from {st_mod.__file__}, not from {repo / SRC}')
+    TS = st_mod.TransferState
+    enum_vals = {m.name: m.value for m in TS.State}
+    if set(enum_vals) != set(ST) | {'UNSET'}:
+        raise TranslateError(f'State members {sorted(enum_vals)} differ from the model vocabulary')
+    class_values = {}
+    for c in TS.__subclasses__():
+        if c.VALUE.name in class_values.values():
+            raise TranslateError(f'two classes with VALUE {c.VALUE.name}')
+        class_values[c.__name__] = c.VALUE.name
+    if set(class_values.values()) != set(ST):
+        raise TranslateError(f'states without a class: {sorted(set(ST) - set(class_values.values()))}')
+    REASON, REMOTELY = 'reason-sentinel', 'remotely-sentinel'
+    FIELDS = {'remotely_queued': REMOTELY, 'fail_reason': REASON, 'abort_reason': REASON}
+    table = {}
+
+    async def probe(cls, meth, direction):
+        log, depth = [], [0]
+        Base = md_mod.Transfer
+
+        class Spy(Base):
+            def __setattr__(self, k, v):
+                if k in FIELDS and depth[0] == 0 and self.__dict__.get('_spy_on'):
+                    if v == FIELDS[k]:
+                        log.append(ASSIGN_EFFECTS[(k, 'remotely' if k == 'remotely_queued' else 'reason')])
+                    elif v is None and (k, None) in ASSIGN_EFFECTS:
+                        log.append(ASSIGN_EFFECTS[(k, None)])
+                    else:
+                        raise TranslateError(f'{cls.__name__}.{meth}: assigns {k} = {v!r} (neither the parameter nor None)')
+                object.__setattr__(self, k, v)
+        t = Spy('user', 'remote\\path', md_mod.TransferDirection.UPLOAD if direction == 'upload'
+                else md_mod.TransferDirection.DOWNLOAD)
+        t.state = cls(t)
+        target = []
+
+        def wrap_call(name, eff):
+            orig = getattr(t, name)
+
+            def f(*a, **k):
+                log.append(eff)
+                depth[0] += 1
+                try:
+                    return orig(*a, **k)
+                finally:
+                    depth[0] -= 1
+            object.__setattr__(t, name, f)
+        for name, eff in CALL_EFFECTS.items():
+            wrap_call(name, eff)
+
+        def cancel_tasks():
+            log.append('cancelTasks')
+            return []
+        object.__setattr__(t, 'cancel_tasks', cancel_tasks)
+
+        async def transition(state):
+            target.append(type(state).VALUE.name)
+            object.__setattr__(t, 'state', state)
+        object.__setattr__(t, 'transition', transition)
+
+        async def remove_local_file(transfer):
+            if transfer is not t:
+                raise TranslateError('_remove_local_file called for another transfer')
+            log.append('removeLocalFile')
+        saved = st_mod._remove_local_file
+        st_mod._remove_local_file = remove_local_file
+        object.__setattr__(t, '_spy_on', True)
+        try:
+            kwargs = {q: (REASON if q == 'reason' else REMOTELY) for q in PARAMS[meth]}
+            res = await getattr(t.state, meth)(**kwargs)
+        finally:
+            st_mod._remove_local_file = saved
+        if res is False or res is None and not target:
+            if log or target:
+                raise TranslateError(f'{cls.__name__}.{meth} ({direction}): refused (returned {res!r}) but had effects {log}')
+            return None
+        if res is not True or len(target) != 1:
+            raise TranslateError(f'{cls.__name__}.{meth} ({direction}): returned {res!r} with transitions {target}')
+        return (ST[target[0]], log)
+
+    async def run_all():
+        for c in TS.__subclasses__():
+            for meth in METH:
+                per = {}
+                for d in DIRS:
+                    per[d] = await probe(c, meth, d)
+                if per['upload'] is None and per['download'] is None:
+                    continue
+                if per['upload'] is None or per['download'] is None:
+                    raise TranslateError(f'{c.__name__}.{meth}: refused for one direction only')
+                table[(c.VALUE.name, meth)] = per
+    loop = asyncio.new_event_loop()
+    try:
+        loop.run_until_complete(run_all())
+    finally:
+        loop.close()
+    return {'enum': enum_vals, 'classes': class_values, 'helpers': {}, 'table': table}
+
+
+def extract_checked(repo: Path) -> dict:
+    """AST reading cross-checked against the behavioural reading; the behavioural reading alone when the source has a
+    shape the AST walk does not know (a refactoring), provided the running code can be probed at all."""
+    try:
+        info = extract(repo)
+    except TranslateError as shape_error:
+        try:
+            return extract_by_behaviour(repo)
+        except TranslateError as e:
+            raise TranslateError(f'{shape_error}; and the behavioural reading failed: {e}')
+        except Exception as e:  # noqa: BLE001
+            raise TranslateError(f'{shape_error}; and the behavioural reading failed: {e!r}')
+    try:
+        beh = extract_by_behaviour(repo)
+    except TranslateError as e:
+        if 'is imported from' in str(e):
+            return info                       # the tree under test is not the importable one: AST reading only
+        raise
+    for k in ('enum', 'classes'):
+        if info[k] != beh[k]:
+            raise TranslateError(f'AST and behavioural reading disagree on {k}: {info[k]} vs {beh[k]}')
+    a = {k: {d: (t, list(e)) for d, (t, e) in per.items()} for k, per in info['table'].items()}
+    b = {k: {d: (t, list(e)) for d, (t, e) in per.items()} for k, per in beh['table'].items()}
+    if a != b:
+        diff = sorted(k for k in set(a) | set(b) if a.get(k) != b.get(k))
+        raise TranslateError(f'AST and behavioural reading of state.py disagree on {diff[:4]}: '
+                             f'{[(a.get(k), b.get(k)) for k in diff[:2]]}')
+    return info
+
+
 def edges(info: dict) -> set:
     """(direction, from, to) triples of the table (used by the harness for reporting)."""
     out = set()
@@ -372,7 +512,7 @@ def render(info: dict) -> str:
 
 
 def generate(repo: Path, lean_dir: Path) -> str:
-    text = render(extract(repo))
+    text = render(extract_checked(repo))
     p = lean_dir / 'AioslskVerif/Generated/TransferTable.lean'
     if not p.exists() or p.read_text() != text:
         p.write_text(text)
